@@ -19,7 +19,8 @@ PTR = re.compile(r'Pointer \{ addr: [^}]*\}')
 
 _CTX = {}
 
-GEN_KINDS = ('core', 'scope', 'classes', 'exc', 'chan', 'opcover', 'natives', 'strings', 'alias', 'gcstress')
+GEN_KINDS = ('core', 'scope', 'classes', 'exc', 'chan', 'opcover', 'natives', 'strings', 'alias', 'gcstress',
+             'dynclasses', 'numbers')
 
 
 def available_kinds(wanted=GEN_KINDS):
